@@ -335,8 +335,47 @@ def run(ctx) -> None:
     tcs = norm(cached["cRvec_shifted"].node)
     r3.check("self.shifts_diff_cart" in tcs and "self.cRvec" in tcs, "cRvec_shifted = cRvec + (τj − τi)", cached["cRvec_shifted"],
              cached["cRvec_shifted"].node, "cRvec_shifted is no longer built from cRvec and the shift differences", stmt="cRvec_shifted")
+    # … and every cached property that (transitively) reads state which the re-indexing methods rewrite before they call clear_cached()
+    rewritten = set()
+    reindexers_ = {"reorder", "double_spin"}      # the methods judged by R05.2 (set_Rvec only runs on a freshly constructed object)
+    for m_ in rvc.methods.values():
+        if m_.name in reindexers_ and any(isinstance(c_, ast.Call) and norm(c_.func) == "self.clear_cached" for c_ in ast.walk(m_.node)):
+            for st_ in ast.walk(m_.node):
+                tg_ = st_.targets if isinstance(st_, ast.Assign) else [st_.target] if isinstance(st_, ast.AugAssign) else []
+                for t_ in tg_:
+                    for x_ in (t_.elts if isinstance(t_, ast.Tuple) else [t_]):
+                        if isinstance(x_, ast.Attribute) and isinstance(x_.value, ast.Name) and x_.value.id == "self":
+                            rewritten.add(x_.attr)
+    props_ = {m.name: m for m in rvc.methods.values() if any(d.endswith("cached_property") or d == "property" for d in m.decorators)}
+
+    def reads_(nme, seen_):
+        out_ = set()
+        if nme in seen_ or nme not in props_:
+            return out_
+        seen_.add(nme)
+        # reads of the shape only (`self.X.shape[0]`, `len(self.X)`, `.ndim`) do not depend on the order of the entries
+        shape_only = set()
+        for x in ast.walk(props_[nme].node):
+            if isinstance(x, ast.Attribute) and x.attr in ("shape", "ndim", "size") and isinstance(x.value, ast.Attribute):
+                shape_only.add(id(x.value))
+            elif isinstance(x, ast.Call) and call_name(x) == "len" and len(x.args) == 1 and isinstance(x.args[0], ast.Attribute):
+                shape_only.add(id(x.args[0]))
+        for x in ast.walk(props_[nme].node):
+            if id(x) in shape_only:
+                continue
+            if isinstance(x, ast.Attribute) and isinstance(x.value, ast.Name) and x.value.id == "self":
+                out_.add(x.attr)
+                out_ |= reads_(x.attr, seen_)
+            elif isinstance(x, ast.Call) and call_name(x) == "getattr" and len(x.args) >= 2 and norm(x.args[0]) == "self" and isinstance(x.args[1], ast.Constant):
+                out_.add(x.args[1].value)
+                out_ |= reads_(x.args[1].value, seen_)
+        return out_
+    r3.expect(bool(rewritten), "state rewritten before clear_cached located", cc, cc.node, "Rvectors: no method assigns attributes and then calls self.clear_cached()")
+    for nme in sorted(cached):
+        if reads_(nme, set()) & rewritten and nme not in dependent:
+            dependent.append(nme)
     missing = [d for d in dependent if d not in names]
-    r3.check(not missing and bool(dependent), f"all {len(dependent)} cached properties behind cRvec_shifted {sorted(dependent)} are in the clear list", cc, cc.node,
+    r3.check(not missing and bool(dependent), f"all {len(dependent)} cached properties that depend on {sorted(rewritten)} ({sorted(dependent)}) are in the clear list", cc, cc.node,
              f"cached properties {missing} depend on the shifts but are not cleared by Rvectors.clear_cached: after a reorder they keep "
              f"the old order", stmt=f"missing {missing}")
     sc = idx.function(SR, "System_R.clear_cached_wcc")
